@@ -1,4 +1,4 @@
-package main
+package astacc
 
 import (
 	"fmt"
@@ -10,8 +10,8 @@ import (
 	"strings"
 )
 
-// An access is one syntactic use of a shared field of Service / work / queryEvent in go-res.
-type access struct {
+// Access is one syntactic use of a shared field of Service / work / queryEvent in go-res.
+type Access struct {
 	Func   string // enclosing function (Recv.Name)
 	Struct string // Service | work | queryEvent
 	Field  string
@@ -19,6 +19,7 @@ type access struct {
 	Locked bool // syntactically between s.mu.Lock() and s.mu.Unlock() (or in a function documented as called with the lock held)
 	Atomic bool // argument of a sync/atomic call
 	Sync   bool // method call on a self-synchronising field (sync.WaitGroup, sync.Cond, chan op)
+	Region int  // number of the critical section of s.mu inside Func the access lies in (0 = not under the lock)
 }
 
 var serviceFields = map[string]bool{"state": true, "nc": true, "inCh": true, "rwork": true, "workqueue": true, "workbuf": true,
@@ -46,9 +47,10 @@ func structOf(recvType string, x ast.Expr, env map[string]string) string {
 	return ""
 }
 
-func collect(repo string) ([]access, error) {
+// Collect extracts the access table from the go-res source tree at repo.
+func Collect(repo string) ([]Access, error) {
 	fset := token.NewFileSet()
-	var out []access
+	var out []Access
 	for _, name := range []string{"service.go", "worker.go", "queryevent.go", "resource.go", "request.go", "getrequest.go", "mux.go"} {
 		f, err := parser.ParseFile(fset, filepath.Join(repo, name), nil, 0)
 		if err != nil {
@@ -118,13 +120,16 @@ func collect(repo string) ([]access, error) {
 				return true
 			})
 			w := &walker{fname: fname, env: env, locked: lockedFuncs[fname]}
+			if w.locked {
+				w.nreg, w.region = 1, 1
+			}
 			w.block(fd.Body.List)
 			out = append(out, w.out...)
 		}
 	}
 	// canonical: dedupe and sort
 	seen := map[string]bool{}
-	var res []access
+	var res []Access
 	for _, a := range out {
 		k := fmt.Sprintf("%v", a)
 		if !seen[k] {
@@ -140,7 +145,9 @@ type walker struct {
 	fname  string
 	env    map[string]string
 	locked bool
-	out    []access
+	out    []Access
+	region int // current critical section number (valid while locked)
+	nreg   int
 }
 
 func exprString(e ast.Expr) string {
@@ -181,6 +188,16 @@ func isMuCall(e ast.Expr, method string) bool {
 	return ok && in.Sel.Name == "mu"
 }
 
+// blockUntilUnlock walks statements until the lock is released (used for loop wrap-around).
+func (w *walker) blockUntilUnlock(stmts []ast.Stmt) {
+	for _, st := range stmts {
+		if !w.locked {
+			return
+		}
+		w.stmt(st)
+	}
+}
+
 func (w *walker) block(stmts []ast.Stmt) {
 	for _, st := range stmts {
 		w.stmt(st)
@@ -192,6 +209,8 @@ func (w *walker) stmt(st ast.Stmt) {
 	case *ast.ExprStmt:
 		if isMuCall(s.X, "Lock") {
 			w.locked = true
+			w.nreg++
+			w.region = w.nreg
 			return
 		}
 		if isMuCall(s.X, "Unlock") {
@@ -243,6 +262,16 @@ func (w *walker) stmt(st ast.Stmt) {
 		w.block(s.Body.List)
 		if s.Post != nil {
 			w.stmt(s.Post)
+		}
+		// wrap-around: the critical section open at the end of the body continues into the condition
+		// (and, when the condition holds, into the body up to its first Unlock)
+		if s.Cond != nil {
+			w.expr(s.Cond, false)
+		}
+		if w.locked {
+			saved, savedReg, savedN := w.locked, w.region, w.nreg
+			w.blockUntilUnlock(s.Body.List)
+			w.locked, w.region, w.nreg = saved, savedReg, savedN
 		}
 	case *ast.RangeStmt:
 		w.expr(s.X, false)
@@ -326,7 +355,11 @@ func (w *walker) record(sel *ast.SelectorExpr, write, atomic, sync bool) {
 	if f == "mu" {
 		return
 	}
-	w.out = append(w.out, access{Func: w.fname, Struct: st, Field: f, Write: write, Locked: w.locked, Atomic: atomic, Sync: sync})
+	reg := 0
+	if w.locked {
+		reg = w.region
+	}
+	w.out = append(w.out, Access{Func: w.fname, Struct: st, Field: f, Write: write, Locked: w.locked, Atomic: atomic, Sync: sync, Region: reg})
 }
 
 func (w *walker) expr(e ast.Expr, write bool) {
@@ -430,4 +463,28 @@ func (w *walker) expr(e ast.Expr, write bool) {
 	case *ast.KeyValueExpr:
 		w.expr(x.Value, false)
 	}
+}
+
+// CoqAcc prints an access as a Coq term of type Sched.Access.acc.
+func CoqAcc(a Access) string {
+	b := func(x bool) string {
+		if x {
+			return "true"
+		}
+		return "false"
+	}
+	return fmt.Sprintf("Acc %q %q %q %s %s %s %s %d", a.Func, a.Struct, a.Field, b(a.Write), b(a.Locked), b(a.Atomic), b(a.Sync), a.Region)
+}
+
+// CoqTable prints the generated file coq/Sched/AccessTable.v.
+func CoqTable(acc []Access) string {
+	s := "(* GENERATED by `harness/cmd/race table-coq` from /repo's source (go/ast). Do not edit: the C16 check\n   regenerates the table on every run and compares it with this file. *)\nFrom Coq Require Import String List NArith.\nImport ListNotations.\nFrom GoRes Require Import Sched.Access.\nLocal Open Scope string_scope.\nLocal Open Scope N_scope.\nDefinition access_table : list acc := [\n"
+	for i, a := range acc {
+		s += "  " + CoqAcc(a)
+		if i+1 < len(acc) {
+			s += ";"
+		}
+		s += "\n"
+	}
+	return s + "].\n"
 }
